@@ -24,7 +24,25 @@ def parseOp : List String → Option Op
   | ["reset"] => some .reset
   | _ => none
 
+/-- slack for real elapsed time: a sleep never ends early, and ends late by scheduling noise only -/
+def slackNs : Int := 1500000000
+
+/-- `smwait`: the n-th wait of the real `StreamManager.resume` loop. The harness reports `gap draw bound` (ns):
+the measured time between two attempts, the jitter draw `rand.Intn(bound)` it obtained from the same PRNG seed,
+and the bound it used. Correspondence: the bound is the model's, the draw is below it and the loop slept for that
+draw. Property: the delay is not negative and does not exceed min(cap, base·factor^n) (beyond the timing slack). -/
+def stepSm (d : DSt) (impl : String) : DSt × Reply :=
+  let (s', v) := Model.C19.step d.s .dur
+  let (okM, om') := holdsStepExec d.om .dur v
+  match (impl.splitOn " ").map parseInt with
+  | [some gap, some draw, some bound] =>
+    let agree := bound == v && decide (0 ≤ draw) && decide (draw < v ∨ v = 0) && decide (draw ≤ gap) && decide (gap ≤ draw + slackNs)
+    let okI := decide (0 ≤ gap) && decide (gap ≤ v + slackNs)
+    (⟨s', om', { d.oi with count := d.oi.count + 1 }⟩, ⟨toString v, agree, okM, okI, "-"⟩)
+  | _ => (⟨s', om', d.oi⟩, ⟨toString v, false, okM, false, "-"⟩)
+
 def step (d : DSt) (fields : List String) (impl : String) : DSt × Reply :=
+  if fields == ["smwait"] then stepSm d impl else
   match parseOp fields with
   | none => (d, .bad)
   | some op =>
